@@ -95,6 +95,9 @@ func Classes(expected [][2]rune, classes [][2]rune) {
 		}
 	}
 	for _, e := range expected {
+		if e[0] > e[1] {
+			continue // an empty interval ('z'-'a') is the empty union of classes
+		}
 		// walk the classes that intersect e: they must tile e exactly
 		next := e[0]
 		for _, c := range classes {
